@@ -21,14 +21,16 @@ Inductive nevent :=
 Record nobs := mkObs {
   ob_result : N;        (* rpcResult of the reply, 0 when the event has no reply *)
   ob_respterm : N;      (* resp.term *)
-  ob_resplast : N       (* appendResp.lastLogIndex, 0 otherwise *)
+  ob_resplast : N;      (* appendResp.lastLogIndex, 0 otherwise *)
+  ob_out : lout         (* task replies and messages produced by the step *)
 }.
-Definition no_obs : nobs := mkObs 0 0 0.
+Definition no_obs : nobs := mkObs 0 0 0 no_out.
+Definition obs_out (o : lout) : nobs := mkObs 0 0 0 o.
 
-Definition release_role (opt : options) (old : N) (s : nstate) : nstate :=
-  if old =? Candidate then candidate_release s
-  else if old =? Leader then leader_release s
-  else s.
+Definition release_role (opt : options) (old : N) (s : nstate) : nstate * lout :=
+  if old =? Candidate then (candidate_release s, no_out)
+  else if old =? Leader then leader_release_out s
+  else (s, no_out).
 
 Definition init_role (opt : options) (s : nstate) : outcome nstate :=
   if st_role s =? Follower then Done (follower_init s)
@@ -37,18 +39,27 @@ Definition init_role (opt : options) (s : nstate) : outcome nstate :=
 
 (* the outer loop of stateLoop; init may itself change the role (a leader that
    finds itself demoted by a commit inside init) *)
-Fixpoint transition (fuel : nat) (opt : options) (old : N) (s : nstate) : outcome nstate :=
-  if (st_role s =? old) || st_closed s then Done s else
+Fixpoint transition (fuel : nat) (opt : options) (old : N) (s : nstate) : outcome W :=
+  if st_closed s then
+    (* the loop returns: the deferred release of the role whose init ran last *)
+    Done (release_role opt old s)
+  else if st_role s =? old then wret s else
   match fuel with
   | O => Err EBug
   | S f =>
-      let s1 := release_role opt old (set_timer s false) in
+      let (s1, out) := release_role opt old (set_timer s false) in
       s2 <~ init_role opt s1 ;;
-      transition f opt (st_role s1) s2
+      wbind (Done (s2, out)) (fun s2 => transition f opt (st_role s1) s2)
   end.
 
 Definition after_rpc (s : nstate) (reset : bool) : nstate :=
   if (st_role s =? Follower) && reset then follower_reset_timer s else s.
+
+Definition finish (opt : options) (old : N) (code t last : N) (w : W) : outcome (nobs * nstate) :=
+  let (s1, out1) := w in
+  r <~ transition 4 opt old s1 ;;
+  let (s2, out2) := r in
+  Done (mkObs code t last (out_app out1 out2), s2).
 
 Definition model_event (opt : options) (s : nstate) (ev : nevent) : outcome (nobs * nstate) :=
   let old := st_role s in
@@ -56,34 +67,28 @@ Definition model_event (opt : options) (s : nstate) (ev : nevent) : outcome (nob
   | EVoteReq q =>
       r <~ on_vote_request s q ;;
       let (code, s1) := r in
-      s2 <~ transition 4 opt old (after_rpc s1 (code =? success)) ;;
-      Done (mkObs code (st_term s1) 0, s2)
+      finish opt old code (st_term s1) 0 (after_rpc s1 (code =? success), no_out)
   | EAppendReq q =>
       r <~ on_append_request (o_shutdown_on_remove opt) s q ;;
       let (code, s1) := r in
       if code =? unexpectedErr then Err EDecode else
-      s2 <~ transition 4 opt old (after_rpc s1 true) ;;
-      Done (mkObs code (st_term s1) (st_lastidx s1), s2)
+      finish opt old code (st_term s1) (st_lastidx s1) (after_rpc s1 true, no_out)
   | ESnapReq q np =>
       r <~ on_install_snap_request s q np ;;
       let (code, s1) := r in
-      s2 <~ transition 4 opt old (after_rpc s1 true) ;;
-      Done (mkObs code (st_term s1) 0, s2)
+      finish opt old code (st_term s1) 0 (after_rpc s1 true, no_out)
   | ETimeoutNowReq _ _ =>
       let (code, s1) := on_timeout_now_request s in
-      s2 <~ transition 4 opt old (after_rpc s1 true) ;;
-      Done (mkObs code (st_term s1) 0, s2)
+      finish opt old code (st_term s1) 0 (after_rpc s1 true, no_out)
   | ETimeout =>
       s1 <~ (if old =? Follower then Done (follower_on_timeout s)
              else if old =? Candidate then start_election (set_timer s false)
              else leader_on_timeout opt (set_timer s false)) ;;
-      s2 <~ transition 4 opt old s1 ;;
-      Done (no_obs, s2)
+      finish opt old 0 0 0 (s1, no_out)
   | EVoteResult t res =>
       if old =? Candidate then
         s1 <~ on_vote_result s t res ;;
-        s2 <~ transition 4 opt old s1 ;;
-        Done (no_obs, s2)
+        finish opt old 0 0 0 (s1, no_out)
       else Done (no_obs, s)
   | EDisconnected nid =>
       Done (no_obs, if negb (st_leader s =? 0) && negb (nid =? 0) && (st_leader s =? nid) then set_leader s 0 else s)
@@ -92,8 +97,7 @@ Definition model_event (opt : options) (s : nstate) (ev : nevent) : outcome (nob
       Done (no_obs, follower_init s1)
   | ELeader e =>
       if old =? Leader then
-        s1 <~ leader_event opt s e ;;
-        s2 <~ transition 4 opt old s1 ;;
-        Done (no_obs, s2)
+        w <~ leader_event_out opt s e ;;
+        finish opt old 0 0 0 w
       else Done (no_obs, s)
   end.
